@@ -116,14 +116,18 @@ func runC14(c *core.Ctx) {
 			}
 			// reply wrapper call
 			ws := callsOf(yr, core.FuncName(wrapper))
-			if len(ws) != 1 || len(yr.AnonFuncs) != 1 {
+			if len(ws) != 1 || len(ws[0].Call.Args) < 2 {
 				return false, fmt.Sprintf("expected one guarded reply (found %d wrapper calls)", len(ws))
 			}
 			w := ws[0]
+			fv := core.ResolveFuncValue(p, w.Call.Args[1])
+			if fv == nil {
+				return false, "the function handed to the lock wrapper is not a function value built here"
+			}
 			if !isOpField(w.Call.Args[0], "cor") {
 				return false, "the reply is sent under the lock of " + core.Path(w.Call.Args[0]) + ", not of the requester carried by the received request (op.cor): wrong lock → sends race with that coroutine's close, and a full request channel deadlocks"
 			}
-			cl := yr.AnonFuncs[0]
+			cl := fv.Fn
 			var send *ssa.Send
 			core.Instrs(cl, func(ins ssa.Instruction) {
 				if s, isS := ins.(*ssa.Send); isS {
@@ -133,13 +137,18 @@ func runC14(c *core.Ctx) {
 			if send == nil || core.FieldKey(send.Chan) != "CorDef.resultCh" {
 				return false, "the reply closure does not send on a result channel"
 			}
-			// the channel's owner is the captured requester
+			// the channel's owner is the captured requester (captured variable / field of the bound receiver)
 			ownerName := core.FieldBase(send.Chan)
-			owner := capturedBinding(yr, cl, ownerName)
+			var owner ssa.Value
+			if ld, isLd := core.Unwrap(send.Chan).(*ssa.UnOp); isLd {
+				if fa, isFA := ld.X.(*ssa.FieldAddr); isFA {
+					owner = fv.Outer(fa.X)
+				}
+			}
 			if owner == nil || !isOpField(owner, "cor") {
 				return false, "the reply goes to the result channel of " + ownerName + ", which is not the requester stored in the received request: the value is routed to the wrong coroutine"
 			}
-			if v := capturedBinding(yr, cl, core.Path(send.X)); v != ssa.Value(yr.Params[1]) {
+			if v := fv.Outer(send.X); v != ssa.Value(yr.Params[1]) {
 				return false, "the value sent back is not YieldRef's argument"
 			}
 			// exactly once where a requester is present
@@ -283,7 +292,17 @@ func runC14(c *core.Ctx) {
 					goIns = g
 				}
 			})
-			if goIns == nil || len(st.AnonFuncs) != 1 {
+			nGo := 0
+			core.Instrs(st, func(ins ssa.Instruction) {
+				if _, isG := ins.(*ssa.Go); isG {
+					nGo++
+				}
+			})
+			var body *ssa.Function
+			if goIns != nil {
+				body = callTarget(p, &goIns.Call)
+			}
+			if goIns == nil || nGo != 1 || body == nil {
 				return false, "Start does not spawn exactly one goroutine"
 			}
 			setOK := false
@@ -297,7 +316,6 @@ func runC14(c *core.Ctx) {
 			if !setOK {
 				return false, "the started flag is not set before the goroutine is spawned (IsStarted can be false while the effect already runs; a second Start spawns twice)"
 			}
-			body := st.AnonFuncs[0]
 			var eff, cls ssa.Instruction
 			core.Instrs(body, func(ins ssa.Instruction) {
 				if call, isC := ins.(*ssa.Call); isC {
